@@ -135,6 +135,11 @@ def run(tier):
                 got, I = call(build(lines + [line_atom("junk")], True))
                 n += 1
                 C.ob("C19/junk", label, got == [("err", "JunkAfterPgpSignature")], "yields %s, expected Err(JunkAfterPgpSignature)" % got, f["sp"])
+                # any further line counts, also an empty or blank-only one
+                for jn, jl in (("an empty line", [("lit", "")]), ("a blank-only line", [("lit", "  ")])):
+                    got, I = call(build(lines + [jl], True))
+                    n += 1
+                    C.ob("C19/junk", "%s + %s" % (label, jn), got == [("err", "JunkAfterPgpSignature")], "yields %s, expected Err(JunkAfterPgpSignature)" % got, f["sp"])
                 if n < 400 and len(C.samples) < 6:
                     C.sample({"message": label, "expected_payload": want_payload, "expected_signature": want_sig})
     # unsigned input is returned unchanged
